@@ -1,5 +1,6 @@
 /* Adapter: ufw length-prefix framing (C13).  Event vocabulary: spec/LengthPrefix.tla. */
 #include <errno.h>
+#include <limits.h>
 #include <stdio.h>
 #include <stdlib.h>
 #include <string.h>
@@ -35,6 +36,7 @@ static ssize_t src_chunk(void *drv, void *buf, size_t n)
     s->pos += d;
     return (ssize_t)d;
 }
+ssize_t lenp_acc_sink(void *drv, const void *buf, size_t n) { (void)buf; *(unsigned long long *)drv += n; return (ssize_t)n; }
 static long long rcc(long long rc) { return rc >= 0 ? rc : (rc == -ENOMEM ? -12 : -1); }
 static unsigned char tok(size_t i) { return (unsigned char)((i + 1) % 256); }
 
@@ -113,6 +115,23 @@ void adapter_exec(Ev *ev)
         }
         for (size_t i = 0; i < nc; i++) xfree(blks[i]);
         free(cs); free(blks);
+        return;
+    }
+    if (ev_is(ev, "msinkhuge")) {
+        /* msinkhuge k d: framing SSIZE_MAX - d octets "from memory" into a sink that only accounts for what it is offered (no memory
+         * behind the pointer).  Observation: -1 <octets offered to the sink>  when refused,  0 <SSIZE_MAX - total> <offered == total> else */
+        static unsigned long long offered;
+        struct acc { int dummy; };
+        offered = 0;
+        Sink ak;
+        extern ssize_t lenp_acc_sink(void *, const void *, size_t);
+        chunk_sink_init(&ak, lenp_acc_sink, &offered);
+        unsigned char *one = xblock(1);
+        size_t n = (size_t)SSIZE_MAX - (size_t)ev->a[1];
+        ssize_t rc = flenp_memory_to_sink(k, &ak, one, n);
+        if (rc < 0) { obs(ev, -1); obs(ev, (long long)offered); }
+        else { obs(ev, 0); obs(ev, (long long)((unsigned long long)SSIZE_MAX - (unsigned long long)rc)); obs(ev, offered == (unsigned long long)rc); }
+        xfree(one);
         return;
     }
     if (ev_is(ev, "msink")) {
